@@ -1,5 +1,6 @@
 import AcraModel.Wire.LenEnc
 import AcraModel.Wire.PgRow
+import AcraModel.Wire.MysqlRow
 /-! Driver ops for C12 (wire formats). -/
 namespace Driver.C12
 open AcraModel AcraModel.Wire
@@ -55,6 +56,19 @@ def applyTrs (ts : List Tr) (i : Nat) (d : Bytes) : Out Bytes :=
   match ts[i]? with
   | some t => t.apply d
   | none => .ok d
+
+/-- cheap checksum so that multi-megabyte results need not be printed -/
+def ck (b : Bytes) : Nat := b.foldl (fun a x => (a * 31 + x.toNat) % 4294967296) 7
+
+def showBig (b : Bytes) : String := s!"{b.length} {ck b} {hexOf (b.take 16)}"
+
+/-- MySQL: what the harness subscriber returns for column `i`: the transformed value in its wire form
+(length-encoded for string-like types, as it is for fixed-width types) -/
+def myG (trs : List Tr) (types : List Nat) (i : Nat) (v : Bytes) : Out Bytes := do
+  let v' ← applyTrs trs i v
+  match types[i]? with
+  | some t => pure (My.encodeBinVal t v')
+  | none => pure (LenEnc.putLengthEncodedString (some v'))
 
 def showPacket (p : Pg.Packet) (rest : Bytes) : String :=
   s!"{p.typ.toNat} {hexOf p.lenBuf} {hexOf p.body} {rest.length} {hexOf (Pg.marshal p)}"
@@ -116,6 +130,65 @@ def handle (op : String) (args : List String) : Option String :=
         let (p, _) ← Pg.readClient true s
         pure (Pg.marshal (Pg.replaceSimpleQuery p q))
       pure (r.render hexOf)
+  -- MySQL framing
+  | "my.read", [s] => do
+      let s ← ofHex s
+      pure ((My.read s).render fun (p, rest) => s!"{hexOf p.header} {showBig p.data} {rest.length} {showBig (My.dump p)}")
+  | "my.setdata", [h, d] => do
+      let h ← ofHex h
+      let d ← ofHex d
+      let p := My.setData ⟨h, []⟩ d
+      pure s!"{hexOf p.header} {showBig (My.dump p)}"
+  | "my.setdata.len", [h, n] => do
+      let h ← ofHex h
+      let n ← n.toNat?
+      pure (hexOf (My.updatePacketSize h n))
+  | "my.replacequery", [h, d, q] => do
+      let h ← ofHex h
+      let d ← ofHex d
+      let q ← ofHex q
+      pure ((My.replaceQuery ⟨h, d⟩ q).render fun p => hexOf (My.dump p))
+  | "my.payload.enc", [seq, n, seed] => do
+      -- specification encoding of a payload given by length and a seed byte (payload[i] = (i*7+seed) % 256)
+      let seq ← seq.toNat?
+      let n ← n.toNat?
+      let seed ← seed.toNat?
+      let payload := (List.range n).map fun i => UInt8.ofNat ((i * 7 + seed) % 256)
+      pure (showBig (My.encodePayload seq payload))
+  | "my.relaygen", [seq, n, seed] => do
+      -- relay of a protocol-encoded payload given by rule: read it, dump it, compare with what was sent
+      let seq ← seq.toNat?
+      let n ← n.toNat?
+      let seed ← seed.toNat?
+      let payload := (List.range n).map fun i => UInt8.ofNat ((i * 7 + seed) % 256)
+      let sent := My.encodePayload seq payload
+      pure ((My.read sent).render fun (p, rest) =>
+        s!"{hexOf p.header} {p.data.length} {rest.length} {(My.dump p).length} {My.dump p == sent}")
+  | "my.textrow", [n, trs, row] => do
+      let n ← n.toNat?
+      let trs ← parseTrs trs
+      let row ← ofHex row
+      pure ((My.textRow (myG trs []) n row).render hexOf)
+  | "my.binrow", [types, trs, row] => do
+      let types ← parseNats types
+      let trs ← parseTrs trs
+      let row ← ofHex row
+      pure ((My.binRow (myG trs types) types row).render hexOf)
+  | "my.textrow.enc", [row] => do
+      let row ← parseRow row
+      pure (hexOf (My.encodeTextRow row))
+  | "my.textrow.dec", [n, b] => do
+      let n ← n.toNat?
+      let b ← ofHex b
+      pure (match My.decodeTextRow n b with | some r => "some " ++ showRow r | none => "none")
+  | "my.binrow.enc", [types, row] => do
+      let types ← parseNats types
+      let row ← parseRow row
+      pure (hexOf (My.encodeBinRow types row))
+  | "my.binrow.dec", [types, b] => do
+      let types ← parseNats types
+      let b ← ofHex b
+      pure (match My.decodeBinRow types b with | some r => "some " ++ showRow r | none => "none")
   | _, _ => none
 
 end Driver.C12
